@@ -17,7 +17,7 @@ EXHAUSTIVE_PARTS = {
     "thorough": ["6 fixed data sets with 1100..3000 points", "all 128 outcomes of the 7-step timing bisection (harness-owned clock) x 12 fixed data sets "
                  "(clustered / uniform / duplicated / lattice, 12..80 points)"],
 }
-RULE = ("Cases: sample matrices of kinds clustered (pruning active), generic, dup, lattice, eighths with 3..40 points "
+RULE = ("Cases: (a sixth of them wide: up to 14 points with more features than points) sample matrices of kinds clustered (pruning active), generic, dup, lattice, eighths with 3..40 points "
         "(thorough: to 150) in 2..5 dimensions; every initial index; n_to_select None/int/float; full_fraction in "
         "{None, 1, .7, .3, 1e-9}; n_trial_calculation 1..4.  For full_fraction=None the harness owns the clock: the "
         "module-global time() of _voronoi_fps is replaced by a deterministic sequence whose 7-bit word fixes each "
@@ -67,6 +67,10 @@ def strategy_(draw, tier):
     big = tier == "thorough"
     n = draw(st.integers(3, 150 if big else 40))
     m = draw(st.integers(2, 5))
+    if draw(st.integers(0, 5)) == 0:
+        # wide data (more features than samples): a different regime for any Gram-matrix based short cut
+        n = min(n, 14)
+        m = n + draw(st.integers(1, 8))
     kind = draw(st.sampled_from(["clustered", "clustered", "generic", "dup", "lattice", "eighths", "tiny", "huge"]))
     X = gen.matrix(draw, n, m, kind)
     init = draw(st.one_of(st.integers(0, n - 1), st.just("random")))
